@@ -123,6 +123,9 @@ func runSolver(ctx context.Context, cmd []string, script string, timeout time.Du
 var resRe = regexp.MustCompile(`(?m)^(sat|unsat|unknown|timeout)\s*$`)
 
 func firstResult(out string) string {
+	if strings.Contains(out, "(error") && !strings.Contains(out, "model is not available") {
+		return "error" // malformed script: never a verdict
+	}
 	m := resRe.FindStringSubmatch(out)
 	if m == nil {
 		if strings.Contains(out, "timeout") || strings.Contains(out, "interrupted") {
@@ -255,6 +258,13 @@ func raceStandalone(e *Enc, o *Obligation, cfg SolverCfg, first string) {
 	}
 	// not discharged: prefer a sat answer (with model) for reporting
 	o.Status = "unknown"
+	for _, r := range got {
+		if r.status == "error" && r.solver != "cvc5" { // cvc5 1.0 rejects some z3-accepted terms (const arrays over uninterpreted sorts): an abstention
+			o.Status, o.Solver, o.Output = "error", r.solver, tail(r.out, 600)
+			fmt.Fprintf(os.Stderr, "govc: solver error on %s: %s\n", o.Name, firstLine(r.out))
+			return
+		}
+	}
 	for _, r := range got {
 		if r.status == "sat" && !o.Cover {
 			o.Status, o.Solver, o.Secs, o.Output = "sat", r.solver, r.secs, tail(r.out, 4000)
